@@ -78,7 +78,8 @@ def one(data):
         raise OracleFailure('%s: external access %r' % (name, ev[:2]))
     status, val = out
     returned = status == 'ok' and val is not None and val != '' and val != b'' and val != {} and val != []
-    if returned and C.contains_token(val) and (C.contains_token(val, 0, (C.CANARY_TEXT,)) or token_only_declared(doc)):
+    # (attribute defaults declared with ATTLIST are an open known finding, C11-dtd-attribute-defaults-applied: not judged here)
+    if returned and C.contains_token(val) and (C.contains_token(val, 0, (C.CANARY_TEXT,)) or (token_only_declared(doc) and b'<!attlist' not in low)):
         raise OracleFailure('%s: entity replacement text in the returned object' % name)
     if declares and returned:
         # only judge when the declaration is real markup (inside the prolog), not text inside CDATA/comments: re-check with a strict reader
